@@ -101,6 +101,19 @@ def gen_cases(ctx, rng):
         cases.append({"dir": rng.choice(["upstream", "downstream"]), "chain": chain, "src": srcs[0], "srcs": srcs, "links": nl,
                       "horizon": 3600 * 1000 * L.MS, "seed": 7000 + i})
         stats["shared_by_connections"] += 1
+    # latencies far above the 5 s after which other parts of the code give up, with a sender that closes right behind its last piece:
+    # the piece still arrives after the latency, and the end of the stream only behind it
+    stats["above_5s_then_close"] = 0
+    for i in range(8 if ctx.tier == "quick" else 200):
+        Lms = rng.choice([5001, 6000, 9000, 20000])
+        chain = [L.tx("noop", name="n0")] * (i % 2) + [L.tx("latency", name="l", latency=Lms, jitter=0)]
+        src, t = [], rng.range(1, 20) * L.MS
+        for _ in range(rng.range(1, 4)):
+            src.append({"at": t, "n": rng.range(1, 2000)})
+            t += rng.choice([0, 1, 300]) * L.MS
+        src.append({"at": t + rng.choice([0, 1, 50]) * L.MS, "close": True})
+        cases.append({"dir": rng.choice(["upstream", "downstream"]), "chain": chain, "src": src, "horizon": 3600 * 1000 * L.MS, "seed": 8500 + i})
+        stats["above_5s_then_close"] += 1
     # the latency toxic created (or raised from 0) while the connection's last stage is stuck handing data to a receiver that takes longer
     # than the 5 s after which other parts of the code give up: the request waits for the stage, and from then on every piece of that
     # connection is delayed like on any other
@@ -136,6 +149,15 @@ def oracle(case, res):
     sent = sum(e.get("n", 0) for e in case["src"])
     if res["total"] != sent:
         return "receiver got %d of %d bytes" % (res["total"], sent)
+    if res.get("closed", -1) not in (-1, None) and (res["writes"] or []) and res["closed"] < res["writes"][-1]["t"]:
+        return ("the receiver's end of the connection was closed at %d ns, before the delayed data was forwarded to it at %d ns: the end of the stream "
+                "overtook data that was waiting out its latency" % (res["closed"], res["writes"][-1]["t"]))
+    srcclose = [e["at"] for e in case["src"] if e.get("close")]
+    lat_only = [t for t in case["chain"] if t["type"] == "latency"]
+    if srcclose and lat_only and not case.get("ops") and res.get("closed", -1) not in (-1, None):
+        lo_close = srcclose[0] + sum(max(0, t["attributes"]["latency"] - t["attributes"]["jitter"]) for t in lat_only) * 0
+        if res["closed"] < lo_close:
+            return "the receiver saw the end of the stream at %d ns, before the sender closed at %d ns" % (res["closed"], srcclose[0])
     if case.get("late_latency"):
         ll = case["late_latency"]
         writes = [e for e in case["src"] if not e.get("close")]
@@ -191,7 +213,7 @@ def known_class(case, res, w):
 def run(ctx):
     return L.run_link_property(
         ctx, PID, gen_cases, oracle,
-        classify=lambda w: "too-early" if "earlier" in w else ("too-late" if "later" in w else ("stream" if "bytes" in w or "content" in w else "crash")),
+        classify=lambda w: "close-order" if ("overtook" in w or "before the sender closed" in w) else "too-early" if "earlier" in w else ("too-late" if "later" in w else ("stream" if "bytes" in w or "content" in w else "crash")),
         rule="one latency toxic (latency from {0,1,5,20,100,250} ms, jitter 0 or up to 300 ms with draws mirrored from the seed) at positions "
              "1-3 among noops; single pieces, bursts (one of them 1100 chunks, beyond the 1024 buffer), paced traffic, pauses; some with a second "
              "latency toxic in series and arrivals far apart; plus connections established after the toxic was updated (once, twice) or a further "
